@@ -2,10 +2,13 @@
 
 import os
 
-# which repairs the checked tree contains: "pinned" (before a779db8), "fixed_F2" (a779db8 = fixes/C08-F2.diff applied),
-# "before_F5" (a779db8, 72ba5d4, 41fd1db), "repaired" (additionally 6d0a3af, 5270ed2; the tree as it is now),
-# "before_F6" (all of these), "repaired_F6" = "repaired" (additionally d3f6cd7 = fixes/C08-F6.diff; the tree as it is now).
-FX = os.environ.get("VERIF_C08_FX", "repaired_F6")
+# which repairs the modelled tree contains (coq/C08/Model.v), each variant = the previous one plus the named fix: commits:
+#   "pinned"     before a779db8
+#   "fixed_F2"   + a779db8 (C08-F2)
+#   "before_F5"  + 72ba5d4 (C08-F3), 41fd1db (C15-F1)
+#   "before_F6"  + 6d0a3af (C08-F5), 5270ed2 (C15-F6)
+#   "repaired"   + d3f6cd7 (C08-F6), f446e16: the tree as it is now ("repaired_F6" is an alias of "repaired")
+FX = os.environ.get("VERIF_C08_FX", "repaired")
 
 P = {
     "id": "C08",
@@ -21,8 +24,8 @@ P = {
                  "C08_F5_nodecode_pinned_refuted", "C08_F2_nodecode_pinned_refuted", "C08_reencoding_invariant_envoy",
                  "C08_off_rejects_encoded_slash_envoy", "C08_F4_envoy_upstream_refuted", "C08_accepted_request",
                  "C08_accepted_request_envoy", "C08_accepted_request_xfu", "C08_precondition_answer",
-                 "C08_precondition_answer_envoy", "C08_reencoding_invariant_xfu", "C08_off_rejects_encoded_slash_xfu",
-                 "C08_off_rejects_encoded_slash_xfu_any", "C08_F6_pinned_refuted"],
+                 "C08_precondition_answer_envoy", "C08_precondition_nonvacuous", "C08_reencoding_invariant_xfu",
+                 "C08_off_rejects_encoded_slash_xfu", "C08_off_rejects_encoded_slash_xfu_any", "C08_F6_pinned_refuted"],
     "streams": [{
         "name": "requests", "pkg": "./internal/rules", "test": "TestVerifC08",
         "overlay": {"internal/rules/zz_verif_c08_test.go": "c08/c08_test.go"},
@@ -64,15 +67,19 @@ P = {
             "arbitrary octets incl. %00 %5C %3F %23 %3B %2F %25 in either hex case; 2%: one segment > 2 KiB), bytes net/url rejects, "
             "malformed escapes; 1-4 rules derived from it (literal / :wildcard / *free wildcard per position; path_params exact, glob or "
             "regex [the answers of the real gobwas/glob / regexp matcher on every piece of the path in three decodings are recorded as the "
-            "model's oracle table; glob/regex only on paths of <= 6 segments], all three allow_encoded_slashes settings, rule-level error "
-            "handler that swallows errors on 40%, forward_to with/without rewrite), default rule in 40%, random method (GET/POST/OPTIONS/"
-            "HEAD/PUT/DELETE), and an equivalent re-encoding of the path.  Every case is run on a fresh repository (the compared "
+            "model's oracle table; glob/regex only on paths of <= 6 segments], allow_encoded_slashes off / on / no_decode or UNSET (the "
+            "default, rendered as off), rule-level error handler that swallows errors on 40%, forward_to with/without rewrite), default "
+            "rule in 40%, random method (GET/POST/OPTIONS/HEAD/PUT/DELETE), and a second spelling of the path: an equivalent re-encoding "
+            "in ~55% of the cases, the same spelling in the rest (a quick run has ~450 + 220 + 260 re-encoded pairs, of which ~140 + 60 + "
+            "75 are accepted by the same non-default rule under both spellings; tags c08:re-encoded, c08:re-encoded-same-rule, "
+            "c08:guard-F1 in the input histogram).  Every case is run on a fresh repository (the compared "
             "observation) AND on a second repository after a history of non-equivalent twins (encoded slashes decoded, every % encoded "
             "once more, the fully decoded path, a miss), in the other order; the repeated answers must equal the first ones (o_stable).  "
             "Non-trivial = the request reaches heimdall, a rule set is loaded, and the two spellings differ or the path has an encoded "
-            "slash; distinct by hash of the input.  units: rule_impl.go unescape on concatenations of escapes and malformed escapes.  "
-            "gourl: net/url (unescape/escape/setPath/EscapedPath/RequestURI/ParseQuery/Encode) and heimdall's URL rewriter on random and "
-            "edge byte strings."),
+            "slash; distinct by hash of the input.  units (supplementary to requests: skipped with a NOTE when the unexported helper "
+            "it calls no longer exists and requests ran green): rule_impl.go unescape on concatenations of escapes and malformed "
+            "escapes.  gourl: net/url (unescape/escape/setPath/EscapedPath/RequestURI/ParseQuery/Encode) and heimdall's URL rewriter on "
+            "random and edge byte strings."),
     "anchors": ["internal/rules/rule_impl.go", "internal/rules/route_matcher.go", "internal/rules/repository_impl.go",
                 "internal/rules/config/encoded_slash_handling.go", "internal/rules/config/backend.go",
                 "internal/rules/config/url_rewriter.go", "internal/handler/requestcontext/extract_url.go"],
@@ -91,28 +98,53 @@ P = {
                   "target parsing + extractURL, X-Forwarded-Uri, Envoy), FindRule's choice of the raw path, the route lookup (segment-wise), "
                   "pathParamMatcher and ruleImpl.Execute.  For ALL rule sets, default-rule settings, request paths and ALL equivalent "
                   "re-encodings: answer kind, rule and captured values are unchanged unless some path expression matches one spelling and "
-                  "not the other (C08-F1, open; the guard fires on ~30% of the generated re-encodings, of which 1 in 6 is "
-                  "over-approximated); a path with %2F/%2f is never accepted by an `off` rule or the default rule (outside C08-F4 via "
-                  "net/http, without any guard via Envoy) and is answered with the precondition error whenever every matching path "
-                  "expression belongs to an `off` rule; every accepted request was matched by a path expression that matches the path as "
-                  "spelled, and its captured values are exactly the segments at that expression's wildcards, decoded per setting "
-                  "(`no_decode`: all but the encoded slash; proved correct without guard); a `no_decode` rule sends upstream the path as "
-                  "it is after its prefix rewriting.  Findings have `_refuted` witnesses.  The model is tied to the code by five "
-                  "differential streams per run (~800 request pairs through the real net/http server/repository/executor, ~400 through the "
-                  "real Envoy request context, ~400 through X-Forwarded-Uri, each with a history run; ~1500 unescape units, ~2500 net/url "
-                  "cases; 30000/15000/15000/30000/40000 in the thorough tier)."),
+                  "not the other (C08-F1, open; the guard fires on ~25% of the generated re-encoded pairs, of which about 1 in 6 is "
+                  "over-approximated; tag c08:guard-F1).  A path with %2F/%2f is never accepted by an `off` rule or the default rule "
+                  "(outside C08-F4 via net/http and X-Forwarded-Uri; without any guard via Envoy and for a forwarded target that does not "
+                  "parse); whenever every path expression matching the path as spelled belongs to an `off` rule it is answered with the "
+                  "precondition error — or, only when no default rule is configured and all those expressions carry path_params (or "
+                  "nothing matches), with 'no rule'; either way rejected.  Every accepted request — outside C08-F4 via net/http and "
+                  "X-Forwarded-Uri, for well-formed paths via Envoy and X-Forwarded-Uri (a malformed path that reaches the rules is "
+                  "captured as \"\") — was matched by a path expression that matches the path as spelled, and its captured values are "
+                  "exactly the segments at that expression's wildcards, decoded per setting (`no_decode`: all but the encoded slash; the "
+                  "piece-by-piece decoding is proved correct without guard).  A `no_decode` rule sends upstream the path as it is after its "
+                  "prefix rewriting whenever that path is one net/url writes unchanged (well-formed, no byte of C08-F4; with such a byte "
+                  "the request line is re-encoded also via Envoy: C08_F4_envoy_upstream_refuted).  An `on` rule captures the fully decoded "
+                  "segments and (net/http entry, rule without rewriter) builds the upstream URL from the decoded path, request line without "
+                  "encoded slash.  Open findings have `_refuted` witnesses on the current tree, repaired ones `_pinned_refuted` witnesses on "
+                  "the tree before the fix.  The model is tied to the code by five differential streams per run (~800 request pairs "
+                  "through the real net/http server/repository/executor, ~400 through the real Envoy request context, ~400 through "
+                  "X-Forwarded-Uri, each with a history run; ~1500 unescape units [supplementary], ~2500 net/url cases; "
+                  "30000/15000/15000/30000/40000 in the thorough tier).  Status codes of the services and the wire towards the upstream "
+                  "are not observed here (C12/C13/C15's)."),
     "level_note": ("Trusted: Coq kernel/vm_compute; the correspondence harness (generator, stub authenticator, oracle tables of the real "
                   "glob/regex matchers, Gallina rendering); the radix tree abstracted to a segment-wise search (C02/C03 own the tree).  "
                   "Correspondence compares kind, rule, captures and the path of the upstream request line only; the property predicate is "
-                  "built from C08/Spec.v on the implementation's observation.  Open findings C08-F1 (raw-path lookup) and C08-F4 (bytes "
-                  "net/url refuses) are guarded, observed on every run and documented by `_refuted` theorems; "
-                  "C08-F2/F3/F5/F6 were repaired by fix: commits a779db8, 72ba5d4, 6d0a3af, d3f6cd7 (F6: an X-Forwarded-Uri that does not parse fell back to the proxy's own path) (theorems are stated for the repaired tree, the "
-                  "earlier behaviour is kept as `_pinned_refuted`).  After an independent audit (docs/audit/C08.md) the check catches the "
-                  "auditor's mutants (lookup cache keyed by the decoded path, decoding only for exact matchers, X-Forwarded-Uri "
-                  "canonicalisation, error-handler detour, OPTIONS exemption, length/shape-limited decoders, rewriter regressions)."),
+                  "built from C08/Spec.v on the implementation's observation.  The statement says 'answered with the precondition error' "
+                  "without exception; the 'no rule' answer for an `off` rule with path_params and no default rule is read as 'rejected' "
+                  "(docs: off = reject requests with encoded slashes), witnessed by C08_precondition_nonvacuous.  NO THEOREM, only the "
+                  "differential predicate up_ok: the upstream path under `on` via Envoy / X-Forwarded-Uri and under `on` with a rewriter on "
+                  "any entry; C08_nodecode_keeps / C08_on_decodes speak about rules without rewriter on the net/http entry (the rewriter "
+                  "case is in accepted_spec, `no_decode` only); captures/upstream of malformed paths via Envoy / X-Forwarded-Uri.  "
+                  "Open findings C08-F1 (raw-path lookup) and C08-F4 (bytes net/url refuses) are guarded, observed on every run and "
+                  "documented by `_refuted` theorems; the theorems use guard_F4 p = `p is not a valid encoded path for net/url` (which also "
+                  "absorbs '?' and '#' in the path for net/http and X-Forwarded-Uri; no Envoy theorem has it), the streams the narrower "
+                  "g_F4 = guard_F4 and an encoded slash in either spelling.  C08-F2/F3/F5/F6 were repaired by fix: commits a779db8, 72ba5d4, "
+                  "6d0a3af, d3f6cd7 (`_pinned_refuted` on pinned / fixed_F2 / before_F5 / before_F6).  The units stream is supplementary to "
+                  "requests (skipped with a NOTE if the unexported helper disappears and requests is green).  After two independent audits "
+                  "(docs/audit/C08.md, docs/audit2/C08.md) the check catches the first auditor's mutants (lookup cache keyed by the decoded "
+                  "path, decoding only for exact matchers, X-Forwarded-Uri canonicalisation, error-handler detour, OPTIONS exemption, "
+                  "length/shape-limited decoders, rewriter regressions) and the seeded changes C08-1, -2, -9, -10, -11."),
     "assumptions": ["every rule of the modelled rule sets has backtracking enabled and no host/method/scheme restriction (C02-F1/C03/C14 cover "
                     "those); the method of the request is varied and must not matter",
                     "the request path contains no '?' and no '#' (the query is a separate input)",
+                    "an X-Forwarded-Uri value is an origin-form target whose path starts with exactly one '/' (no scheme/authority form "
+                    "such as //host/path, no '#'); an empty forwarded path falls back to the proxy's own path (extract_url.go "
+                    "len(rawPath) == 0) and is outside the model; the xfu theorems only require has_prefix \"/\" p and therefore also "
+                    "speak about //-prefixed values, for which the model is not compared with the code",
+                    "rules are built through the rule factory with the setting values off / on / no_decode / unset; the oneof validation of "
+                    "allow_encoded_slashes in the rule-set decoder is not exercised (rule_impl.go's switch is non-exhaustive: any other value "
+                    "would behave like no_decode)",
                     "status codes of the decision/proxy services and the wire format towards the upstream are not observed (the "
                     "executor's error kind and Backend.URL().RequestURI() are); C12/C13/C15 own those layers"],
 }
